@@ -225,11 +225,21 @@ def run_impl(case):
     bts = case["bytes"]
     lines = [_conv(x, bts) for x in case["old"]]
     script = [_conv(x, bts) for x in case["script"]]
+    out = {}
     try:
         debian_support.patch_lines(lines, debian_support.patches_from_ed_script(script))
+        out["ok"] = [x.decode("utf-8") if bts else x for x in lines]
     except Exception as e:
-        return {"err": err_kind(e)}
-    return {"ok": [x.decode("utf-8") if bts else x for x in lines]}
+        out["err"] = err_kind(e)
+    # the same patches, collected first and applied afterwards
+    lines2 = [_conv(x, bts) for x in case["old"]]
+    try:
+        patches = list(debian_support.patches_from_ed_script(list(script)))
+        debian_support.patch_lines(lines2, patches)
+        out["ok2"] = [x.decode("utf-8") if bts else x for x in lines2]
+    except Exception as e:
+        out["err2"] = err_kind(e)
+    return out
 
 
 def _enc(s, bts):
@@ -240,12 +250,10 @@ def _enc(s, bts):
 def emit(case, obs):
     bts = case["bytes"]
     e = lambda ls: cq_strs([_enc(x, bts) for x in ls])
-    if "ok" in obs:
-        o = "(Ok %s)" % e(obs["ok"])
-    else:
-        o = "(Err %s)" % obs["err"]
-    return "mk %s %s %s %s %s" % (cq_bool(bts), e(case["old"]), e(case["script"]),
-                                  cq_opt(case["expect"], e), o)
+    o = "(Ok %s)" % e(obs["ok"]) if "ok" in obs else "(Err %s)" % obs["err"]
+    o2 = "(Ok %s)" % e(obs["ok2"]) if "ok2" in obs else "(Err %s)" % obs["err2"]
+    return "mk %s %s %s %s %s %s" % (cq_bool(bts), e(case["old"]), e(case["script"]),
+                                     cq_opt(case["expect"], e), o, o2)
 
 
 def classify(case, obs):
@@ -275,7 +283,8 @@ def shrink(case):
 
 
 def describe(case, obs):
-    return {"call": "patch_lines(old, patches_from_ed_script(script)) with %s lines" % ("bytes" if case["bytes"] else "str"),
+    return {"call": "patch_lines(old, patches_from_ed_script(script)) with %s lines; 'ok2'/'err2' = the same with "
+                    "patches = list(patches_from_ed_script(script)) collected first" % ("bytes" if case["bytes"] else "str"),
             "old": case["old"], "script": case["script"], "expected_new": case["expect"],
             "observed": obs,
             "specified": "result == expected_new when the script was derived from (old,new); "
